@@ -18,6 +18,7 @@ func genMore() {
 	genSig()
 	genMapRanges()
 	genMainFacts()
+	genLoaderFacts()
 }
 
 type methInfo struct {
